@@ -617,7 +617,7 @@ Outcome run_c19(const Case &c) {
     double t0 = now_ms(); pint r = p_uthread_sleep((puint32)ms); double dt = now_ms() - t0;
     storm.stop(); disarm();
     if (r != 0) fail("sleep-result", "p_uthread_sleep(" + std::to_string(ms) + ") returned " + std::to_string(r) + " after " + std::to_string(dt) + " ms while signals / interruptions were delivered");
-    else if (dt < ms - 0.5) fail("sleep-short", "p_uthread_sleep(" + std::to_string(ms) + ") returned 0 after only " + std::to_string(dt) + " ms");
+    else if (dt < ms - 0.005) fail("sleep-short", "p_uthread_sleep(" + std::to_string(ms) + ") returned 0 after only " + std::to_string(dt) + " ms");
   } else if (sc == "sem_acquire" || sc == "shm_lock") {
     // a helper thread releases the unit after p1 ms
     string name = uq;
